@@ -428,6 +428,9 @@ type c08CtxRound struct {
 	// fields of the context
 	TruncateLen int    `json:"truncate_len"`
 	GoVersion   string `json:"go_version"`
+	// Gone: indices into Files of the files that cannot be read when they are analysed (removed after parsing:
+	// an overlay, a generated file that is gone); the lone runs see them the same way
+	Gone []int `json:"files_not_on_disk,omitempty"`
 }
 
 type c08CtxNarrow struct {
@@ -537,6 +540,13 @@ func (w *c08World) genCtxRound(r *rand.Rand, csDeck, tidDeck *[]int, id int) c08
 	}
 	rd.TruncateLen = []int{0, 0, 0, 24, 40, 100}[r.Intn(6)]
 	rd.GoVersion = []string{"", "", "1.17", "1.21"}[r.Intn(4)]
+	if r.Intn(3) == 0 {
+		for fi := range rd.Files {
+			if r.Intn(2) == 0 {
+				rd.Gone = append(rd.Gone, fi)
+			}
+		}
+	}
 	return rd
 }
 
@@ -759,12 +769,42 @@ func runC08Ctx(spec *c08Spec, r c08CtxRound) c08CtxOut {
 	var pkgs []*ctxPkg
 	var files []*hx.Target
 	var pkgOf []int
+	gone := map[[2]string]bool{}
+	for _, fi := range r.Gone {
+		gone[r.Files[fi]] = true
+	}
 	for pi, p := range r.Pkgs {
 		fset := token.NewFileSet()
-		ts, err := tidCheckPackage(p.Dir, p.Path, p.All, fset, importer.ForCompiler(fset, "source", nil))
+		dir := p.Dir
+		if len(r.Gone) > 0 {
+			// a private copy of the package, so that files can be taken away after parsing
+			tmp, err := os.MkdirTemp("", "c08gone-")
+			if err != nil {
+				out.LoadErr = err.Error()
+				return out
+			}
+			defer os.RemoveAll(tmp)
+			for _, n := range p.All {
+				b, err := os.ReadFile(filepath.Join(p.Dir, n))
+				if err == nil {
+					err = os.WriteFile(filepath.Join(tmp, n), b, 0o644)
+				}
+				if err != nil {
+					out.LoadErr = err.Error()
+					return out
+				}
+			}
+			dir = tmp
+		}
+		ts, err := tidCheckPackage(dir, p.Path, p.All, fset, importer.ForCompiler(fset, "source", nil))
 		if err != nil {
 			out.LoadErr = fmt.Sprintf("target package %s (%s): %v", p.Path, p.Dir, err)
 			return out
+		}
+		for _, n := range p.All {
+			if gone[[2]string{fmt.Sprint(pi), n}] {
+				os.Remove(filepath.Join(dir, n))
+			}
 		}
 		cp := &ctxPkg{targets: map[string]*hx.Target{}, fset: fset}
 		for k, n := range p.All {
@@ -1017,6 +1057,9 @@ func c08EvalCtx(c *Ctx, spec *c08Spec, outs []c08CtxOut) error {
 		label := c08CtxModeLabel(r.Modes)
 		res.Dist("ctx-round:context=" + label)
 		res.Dist("ctx-round:gen=" + r.Gen)
+		if len(r.Gone) > 0 {
+			res.Dist("ctx-round:some-files-not-on-disk")
+		}
 		res.Dist(fmt.Sprintf("ctx-round:packages=%d", len(r.Pkgs)))
 		res.Dist(fmt.Sprintf("ctx-round:files=%d", len(r.Files)))
 		res.Dist(fmt.Sprintf("ctx-round:workers=%d", len(r.Assign)))
